@@ -410,6 +410,7 @@ func c09Child(args []string) int {
 		case len(r.errs) > 0:
 			class = "error:" + errTemplate(r.errs[0])
 		}
+		x.opts.MaxDuration = 0 // the probe itself runs without a deadline (a loaded machine must not fail it)
 		nx := x.step("println(40 + 2)")
 		// peak RSS of this address space (getrusage's maxrss also carries the spawning process's peak over exec)
 		hwm := 0
